@@ -391,9 +391,115 @@ func checkIDs(c IDCase) error {
 	return nil
 }
 
+// ---------------------------------------------------------------------------
+// several clients on ONE connection (each numbers its messages from the same
+// start): calls to different targets carry equal ids at the same time and must
+// still get their own answers.
+
+type SharedCase struct {
+	Clients int   `json:"clients"` // clients (bus.Cache) sharing one endpoint
+	Each    int   `json:"each"`    // calls per client
+	Delays  []int `json:"delays"`  // callee delay per client (us)
+}
+
+func genShared(t *rapid.T) SharedCase {
+	c := SharedCase{Clients: rapid.IntRange(2, 4).Draw(t, "clients"), Each: rapid.IntRange(1, 12).Draw(t, "each")}
+	for i := 0; i < c.Clients; i++ {
+		c.Delays = append(c.Delays, rapid.SampledFrom([]int{0, 50, 300, 1000}).Draw(t, "delay"))
+	}
+	return c
+}
+
+func checkShared(c SharedCase) error {
+	vt.Journal(prop, "TestSharedConnection", "C04:process-died", c)
+	defer vt.JournalDone(prop, "TestSharedConnection")
+	env, err := netkit.StartServer(bus.Yes{})
+	if err != nil {
+		return vt.Violationf("C04:setup", "server: %v", err)
+	}
+	defer env.Close()
+	// one service per client: the targets differ in service id
+	var svcIDs []uint32
+	for i := 0; i < c.Clients; i++ {
+		svc, _, err := env.AddPong(fmt.Sprintf("Svc%d", i))
+		if err != nil {
+			return vt.Violationf("C04:setup", "service: %v", err)
+		}
+		svcIDs = append(svcIDs, svc.ServiceID())
+	}
+	ep, err := qnet.DialEndPoint(env.Addr)
+	if err != nil {
+		return vt.Violationf("C04:setup", "dial: %v", err)
+	}
+	defer ep.Close()
+	if err := bus.AuthenticateUser(ep, "u", "t"); err != nil {
+		return vt.Violationf("C04:setup", "authenticate: %v", err)
+	}
+	proxies := make([]pong.PingPongProxy, c.Clients)
+	for i := range proxies {
+		cache := bus.NewCache(ep) // its own client, same connection
+		name := fmt.Sprintf("Svc%d", i)
+		if err := cache.Lookup(name, svcIDs[i]); err != nil {
+			return vt.Violationf("C04:setup", "lookup: %v", err)
+		}
+		px, err := cache.Proxy(name, 1)
+		if err != nil {
+			return vt.Violationf("C04:setup", "proxy: %v", err)
+		}
+		proxies[i] = pong.MakePingPong(cache, px)
+	}
+	var wg sync.WaitGroup
+	var mu sync.Mutex
+	var first error
+	start := make(chan struct{})
+	for i := range proxies {
+		wg.Add(1)
+		go func(i int) {
+			defer wg.Done()
+			<-start
+			for k := 0; k < c.Each; k++ {
+				tag := fmt.Sprintf("c%dk%d~%d", i, k, c.Delays[i])
+				res, err := proxies[i].Hello(tag)
+				if err != nil || res != "r:"+tag {
+					mu.Lock()
+					if first == nil {
+						first = vt.Violationf("C04:wrong-answer:shared-connection", "client %d of %d sharing one connection: hello(%q) returned (%q, %v)", i, c.Clients, tag, res, err)
+					}
+					mu.Unlock()
+					return
+				}
+			}
+		}(i)
+	}
+	close(start)
+	done := make(chan struct{})
+	go func() { wg.Wait(); close(done) }()
+	select {
+	case <-done:
+	case <-time.After(bound):
+		return vt.Violationf("C04:call-hangs", "calls of %d clients sharing one connection did not return within %v", c.Clients, bound)
+	}
+	if first != nil {
+		return first
+	}
+	for i := 0; i < c.Clients; i++ {
+		for k := 0; k < c.Each; k++ {
+			tag := fmt.Sprintf("c%dk%d~%d", i, k, c.Delays[i])
+			if n := env.Journal.Count(fmt.Sprintf("Svc%d", i), "hello", tag); n != 1 {
+				return vt.Violationf("C04:execution-count", "shared connection: hello(%q) ran %d times on its own service", tag, n)
+			}
+		}
+	}
+	vt.Case(c.Each >= 2, fmt.Sprint(c), "shared-connection", fmt.Sprintf("clients=%d", c.Clients))
+	return nil
+}
+
 func TestCalls(t *testing.T) { vt.Run(t, prop, "TestCalls", genCase, checkCase) }
-func TestIDs(t *testing.T)   { vt.Run(t, prop, "TestIDs", genIDs, checkIDs) }
+func TestSharedConnection(t *testing.T) {
+	vt.Run(t, prop, "TestSharedConnection", genShared, checkShared)
+}
+func TestIDs(t *testing.T) { vt.Run(t, prop, "TestIDs", genIDs, checkIDs) }
 
 func TestReplay(t *testing.T) {
-	vt.Replay(t, map[string]func(json.RawMessage) error{"TestCalls": vt.Decode(checkCase), "TestIDs": vt.Decode(checkIDs)})
+	vt.Replay(t, map[string]func(json.RawMessage) error{"TestCalls": vt.Decode(checkCase), "TestIDs": vt.Decode(checkIDs), "TestSharedConnection": vt.Decode(checkShared)})
 }
